@@ -463,9 +463,63 @@ def gen_nest(rng):
     return lines, 'nest-%d' % min(depth, 6)
 
 
+def noded_exact(lines):
+    """exact (Fractions): the segments of the lines meet only in common end points"""
+    segs = [((Fr(a[0]), Fr(a[1])), (Fr(b[0]), Fr(b[1]))) for l in lines for a, b in zip(l, l[1:])]
+    for i in range(len(segs)):
+        for j in range(i + 1, len(segs)):
+            if seg_meet(segs[i], segs[j]):
+                sh = set(segs[i]) & set(segs[j])
+                if len(sh) != 1:
+                    return False
+                a, b = segs[i]; c, d = segs[j]; o = sh.pop()
+                u = b if a == o else a; v = d if c == o else c
+                if cross(o, u, v) == 0 and dotv(o, u, v) > 0:
+                    return False
+    return True
+
+
+def gen_sliver(rng):
+    for _ in range(20):
+        lines, label = gen_sliver1(rng)
+        if noded_exact(lines):
+            return lines, label
+    return [[(0.0, 0.0), (1.0, 1.0)], [(1.0, 1.0), (1.0, 0.0)], [(1.0, 0.0), (0.0, 0.0)]], 'sliver'
+
+
+def gen_sliver1(rng):
+    """full-precision noded linework: a wheel round a hub in which two spokes of one quadrant differ in direction by less than
+    the resolution of atan2 (a sliver face of area about 2^-54), rotated by multiples of 90 degrees, mirrored, every line order"""
+    eps = rng.choice([2.0 ** -53, 2.0 ** -53, 2.0 ** -53, 2.0 ** -52, 2.0 ** -52, 2.0 ** -50, 2.0 ** -45])
+    a = rng.choice([1.0, 1.0, 2.0, 0.5, 3.0])
+    p = (a, a); q = (a, a - a * eps) if rng.random() < 0.5 else (a - a * eps, a)
+    base = rng.choice([(1.0, 1.0), (2.0, 1.0), (1.0, 3.0)])
+    if base != (1.0, 1.0):
+        p = (base[0] * a, base[1] * a); q = (base[0] * a, base[1] * a - a * eps)
+    others = rng.sample([(-1.0, 2.0), (-2.0, -1.0), (1.0, -2.0), (-3.0, 0.5), (0.5, -3.0), (-1.0, -1.0)], rng.randint(1, 3))
+    pts = [p, q] + others
+    pts.sort(key=lambda v: math.atan2(v[1], v[0]) if v not in (p, q) else (math.atan2(p[1], p[0]) + (1e-9 if v == (q if (p[0] * q[1] - p[1] * q[0]) > 0 else p) else 0)))
+    hub = (0.0, 0.0)
+    lines = [[hub, v] for v in pts] + [[pts[i], pts[(i + 1) % len(pts)]] for i in range(len(pts))]
+    if len(pts) == 3 and rng.random() < 0.5:
+        lines = lines[:-1]                                  # open wheel: the last rim edge missing (a larger outer face)
+    k = rng.randint(0, 3); mir = rng.random() < 0.5
+    def tr(v):
+        x, y = v
+        if mir: x = -x
+        for _ in range(k): x, y = -y, x
+        return (x, y)
+    lines = [[tr(v) for v in l] for l in lines]
+    lines = [l[::-1] if rng.random() < 0.5 else l for l in lines]
+    rng.shuffle(lines)
+    return lines, 'sliver'
+
+
 def gen_poly(rng):
     """correctly noded linework: subsets of the edges of a triangulated grid (lines meet only at their end points)"""
     r0 = rng.random()
+    if r0 > 0.85:
+        return gen_sliver(rng)
     if r0 < 0.25:
         return gen_fan(rng)
     if r0 < 0.5:
@@ -694,6 +748,8 @@ def run(ctx):
     for _ in range(N['poly']):
         lines, label = gen_poly(rng)
         m = pick_map(rng, fp=0.0)
+        if label == 'sliver':                   # full precision already: only an exact power-of-two scaling
+            _k = rng.choice([1.0, 2.0, 0.25, 1024.0]); m = lambda p, _k=_k: (p[0] * _k, p[1] * _k)
         lines = [[m(p) for p in l] for l in lines]
         cases.append(dict(kind='poly', lines=lines, label=label)); note('poly', label)
     for _ in range(N['shared']):
@@ -710,7 +766,7 @@ def run(ctx):
     judge_all(ctx, drv, cases, shrink=True)
     # self-check of the generators: every stream must have produced its degenerate classes
     st = ctx.notes.get('stats', {})
-    for need in ['node:with_intersection', 'merge:with_degree2', 'poly:with_dangle', 'poly:with_cut', 'poly:with_hole', 'poly:node-degree>=6', 'poly:nesting>=4', 'shared:forward', 'shared:backward',
+    for need in ['node:with_intersection', 'merge:with_degree2', 'poly:with_dangle', 'poly:with_cut', 'poly:with_hole', 'poly:node-degree>=6', 'poly:nesting>=4', 'poly:sliver-face', 'shared:forward', 'shared:backward',
                  'lr:exact', 'lr:multi', 'lr:negative', 'lr:beyond_end', 'lr:at_vertex']:
         if st.get(need, 0) == 0:
             ctx.broken.append(dict(kind='generator', name='distribution ' + need, detail='no case of class %s was generated' % need))
@@ -1063,6 +1119,7 @@ def judge_case(ctx, c, line, o, po, mres, allres, st):
             for _a, _b in zip(_l, _l[1:]):
                 if _a != _b: _deg[_a] = _deg.get(_a, 0) + 1; _deg[_b] = _deg.get(_b, 0) + 1
         if _deg and max(_deg.values()) >= 6: st('poly:node-degree>=6')
+        if c.get('label') == 'sliver' and polys: st('poly:sliver-face')
         if str(c.get('label', '')).startswith('nest-') and max([len(rs) for rs in polys] + [0]) >= 2 and len(polys) >= 4: st('poly:nesting>=4')
         ctx.count(line, bool(polys) and (bool(dang) or bool(cuts) or len(polys) > 1))
         names = ['input-noded-no-duplicates', 'polygon-valid', 'edge-once-per-side', 'polygon-edges-are-input-edges', 'edge-accounting', 'dangles-are-the-pruned-edges', 'cut-edges-are-the-bridges', 'polygon-interiors-disjoint']
